@@ -32,6 +32,15 @@ MUT = [
  ("S18 block: line_break != '\\n' in fold test", '                and line_break == "\\n"\n', '                and line_break != "\\n"\n'),
  ("S19 error mark of a translated raise is start_mark", '            "found unexpected end of stream",\n            stream.get_position(),', '            "found unexpected end of stream",\n            start_mark,'),
  ("S20 comment skipping stops at NUL only (_scan_to_next_token)", "            while stream.peek() not in _CHARS_END_NEWLINE:\n                stream.forward()\n        if not _scan_line_break", "            while stream.peek() not in _CHARS_END:\n                stream.forward()\n        if not _scan_line_break"),
+ ("T01 _tokenize: key column test `column == 1`", "        if not stream.column == 0:\n            raise TokenizeError(\n                \"expected key to start at column 0\"", "        if not stream.column == 1:\n            raise TokenizeError(\n                \"expected key to start at column 0\""),
+ ("T02 _tokenize: colon test against ';'", 'if stream.peek() != ":":', 'if stream.peek() != ";":'),
+ ("T03 _tokenize: error mark Position(0, 0, 0)", 'raise TokenizeError("expected \':\' after key", stream.get_position())', 'raise TokenizeError("expected \':\' after key", Position(0, 0, 0))'),
+ ("T04 _tokenize: value scanned with is_key=True", "            yield _scan_plain_scalar(stream, state, is_key=False)", "            yield _scan_plain_scalar(stream, state, is_key=True)"),
+ ("T05 _tokenize: `|` only (folded values become plain)", '        elif ch in ("|", ">"):', '        elif ch in ("|",):'),
+ ("T06 scanner returns ValueToken for keys (_scan_plain_scalar)", '        KeyToken(start_mark, end_mark, "".join(chunks))\n        if is_key\n        else ValueToken(start_mark, end_mark, "".join(chunks))', '        ValueToken(start_mark, end_mark, "".join(chunks))\n        if is_key\n        else ValueToken(start_mark, end_mark, "".join(chunks))'),
+ ("T07 _tokenize: no skip before the colon", "            yield _scan_plain_scalar(stream, state, is_key=True)\n\n        _scan_to_next_token(stream, state)\n", "            yield _scan_plain_scalar(stream, state, is_key=True)\n\n"),
+ ("H08 _tokenize: `if stream.column == 0 or ch == _CHARS_END: pass` (same pairs)", "        if stream.column == 0:\n            pass", "        if stream.column == 0 or ch == _CHARS_END:\n            pass"),
+ ("H09 _tokenize: `not stream.column == 0` -> `stream.column != 0`", "        if not stream.column == 0:", "        if stream.column != 0:"),
  # harmless rewrites
  ("H01 rename local whitespaces -> ws (_scan_flow_scalar_spaces)", None, None),
  ("H02 reorder independent assignments chunks/length (_scan_plain_spaces)", "def _scan_plain_spaces(stream: StreamBuffer, allow_newline: bool = True) -> list[str]:\n    chunks = []\n    length = 0\n", "def _scan_plain_spaces(stream: StreamBuffer, allow_newline: bool = True) -> list[str]:\n    length = 0\n    chunks = []\n"),
